@@ -5,7 +5,7 @@
 From Coq Require Import List Bool Arith NArith ZArith Lia.
 From CliUtils Require Import Model.ObjSet Model.ActuationTable Model.PipelineTypes Model.Pipeline
      Proofs.ObjSetProofs Proofs.PipelineBase Proofs.PipelineAuth Corr.CorrPipeline
-     Proofs.PipelineOrphansRun Proofs.PipelineOrder Proofs.PipelineOrderPlan.
+     Proofs.PipelineOrphansPlan Proofs.PipelineOrphansRun Proofs.PipelineMonBase Proofs.PipelineOrder Proofs.PipelineOrderPlan.
 Import ListNotations.
 
 (* ---- lists with positions -------------------------------------------------------------- *)
@@ -114,25 +114,19 @@ Qed.
 Section Mon.
   Variable sc : scenario.
 
-  Lemma fetch_all_found ids : forall s found, snd (fetch_all sc s ids) = Some found ->
-    found = flat_map (fun i => match find_obj (objs (r_cl s)) i with Some c => [c] | None => [] end) ids.
-  Proof.
-    induction ids as [|i t IH]; intros s found; cbn [fetch_all flat_map]; [intros [= <-]; reflexivity|].
-    unfold get_obj. destruct (faulted sc _); cbn [fst snd]; [discriminate|].
-    destruct (find_obj (objs (r_cl s)) i) as [c|] eqn:EF; cbn [fst snd app].
-    - match goal with |- context [fetch_all sc ?s1 t] => pose proof (IH s1) as IH1; destruct (fetch_all sc s1 t) as [s2 r] end.
-      cbn [fst snd r_cl] in *. destruct r as [f'|]; cbn; [|discriminate]. intros [= <-]. rewrite (IH1 f' eq_refl). reflexivity.
-    - match goal with |- context [fetch_all sc ?s1 t] => pose proof (IH s1) as IH1 end. cbn [r_cl] in IH1. exact (IH1 found).
-  Qed.
-
   Lemma run_plan_plan_of c0 pl locals : run_plan sc c0 = Some (pl, locals) -> plan_of sc c0 = pl.
   Proof.
-    unfold run_plan, plan_of. cbv zeta.
-    pose proof (inv_list_cl sc (init_state c0)) as [C1 _]. pose proof (inv_list_res sc (init_state c0)) as R1.
-    destruct (inv_list sc (init_state c0)) as [s1 r1]. cbn [fst snd] in *.
-    destruct r1 as [st|]; [|discriminate]. specialize (R1 st eq_refl). cbn [init_state r_cl] in *. subst st.
-    match goal with |- context [fetch_all sc s1 ?c] => pose proof (fetch_all_found c s1) as F; destruct (fetch_all sc s1 c) as [s2 r2] end.
-    cbn [snd] in F. destruct r2 as [pobjs|]; [|discriminate]. intros [= <- _]. rewrite (F pobjs eq_refl), C1. reflexivity.
+    unfold run_plan. cbv zeta.
+    pose proof (inv_list_cl sc (init_state sc c0)) as [C1 _]. pose proof (inv_list_res sc (init_state sc c0)) as R1.
+    pose proof (known_inv_list sc (init_state sc c0)) as KN1.
+    destruct (inv_list sc (init_state sc c0)) as [s1 r1]. cbn [fst snd] in *.
+    destruct r1 as [st|]; [|discriminate]. specialize (R1 st eq_refl). cbn [init_state r_cl r_known] in *. subst st.
+    fold (prev_of c0). fold (locals_of sc). fold (cand_of sc c0).
+    pose proof (fetch_all_exact sc (cand_of sc c0) s1) as F. pose proof (known_fetch_all sc (cand_of sc c0) s1) as KN2.
+    destruct (fetch_all sc s1 (cand_of sc c0)) as [s2 r2].
+    cbn [fst snd] in F, KN2. destruct r2 as [pobjs|]; [|discriminate]. intros [= <- _].
+    assert (HK1 : r_known s1 = live_crds sc (r_cl s1)) by (rewrite KN1, C1; reflexivity).
+    rewrite (F pobjs HK1 eq_refl), C1, KN2, KN1. apply plan_of_eq.
   Qed.
 
   Theorem mon_C04_holds c0 : WF sc c0 -> mon_C04 sc c0 (run sc c0) = true.
